@@ -210,8 +210,12 @@ def classify_failure(l, table, code, info):
 
 
 def request_of(l):
-    return {"ep": l["ep"], "zone": l["zone"], "cluster": l["cluster"], "schema": l["schema"], "class": l["class"],
-            "from_ns": l["win_from_ns"], "to_ns": l["win_to_ns"]}
+    r = {"ep": l["ep"], "zone": l["zone"], "cluster": l["cluster"], "schema": l["schema"], "class": l["class"],
+         "from_ns": l["win_from_ns"], "to_ns": l["win_to_ns"]}
+    for k in ("gen", "pgen"):     # generated request parameters (tempo_search_gen, prom_gen)
+        if l.get(k):
+            r[k] = l[k]
+    return r
 
 
 def judge(ck, lines, label):
@@ -259,7 +263,14 @@ def violation_for(ck, fails, part):
         l = f[0]
         return (abs(l["zone"]), l["cluster"], l["class"] == "random", len(l["sql"]))
     l, table, code = min(fails, key=key)
-    ck.violation({"property": "C13", "part": part, "kind": "a base-table read is not confined to the requested window / signal",
+    note = {}
+    if table_base(table) == "metrics_15s":
+        note["slot_table"] = ("metrics_15s is a slot table: a row stamped S holds the data of [S, S + 15 s), so `timestamp_ns >= lo` first reads the row "
+                              "stamped at the next 15-second boundary at or above lo and `< hi` reads data up to the boundary at or above hi; the bounds are "
+                              "judged after rounding up to the boundary (Scans.slot_bounded): ts-lower-tight = the slot holding the window start is not read")
+    if "hint_from_ms" in l:
+        note["selector_window_ms"] = [l["hint_from_ms"], l["hint_to_ms"]]
+    ck.violation({"property": "C13", "part": part, "kind": "a base-table read is not confined to the requested window / signal", **note,
                   "failure": CODES[code], "table": table, "endpoint": l["ep"], "api": l["api"], "zone_seconds_east": l["zone"],
                   "cluster": l["cluster"], "window_class": l["class"], "requested_from_ns": l["from_ns"], "requested_to_ns": l["to_ns"],
                   "allowed_widening_ns": [l["widen_lo"], l["widen_hi"]], "statement": l["sql"],
@@ -302,7 +313,7 @@ def theorem_of(l):
         return "label_values_every_scan_bounded / series_every_scan_bounded (ScansPlanners)"
     if ep in ("loki_labels", "prom_labels"):
         return "label_names_every_scan_bounded (ScansPlanners.labels_query)"
-    if ep.startswith("prom_range_") or ep.startswith("prom_instant"):
+    if ep.startswith("prom_range_") or ep.startswith("prom_instant") or ep == "prom_gen":
         if " FROM time_series" in sql and "JSONExtractKeysAndValues" in sql:
             return "prom_labels_fetch_every_scan_bounded (PromSel.labels_fetch)"
         return "prom_every_scan_bounded (PromSel.querier_transpile)"
@@ -347,7 +358,7 @@ def run_scan(ck):
         if os.path.exists(corpus):
             runs.append(("corpus", ["--cases", corpus]))
         sweep = ["--seed", ck.seed, "--random-windows", ck.n(3, 40), "--tails", ck.n(2, 6), "--cluster", "both",
-                 "--schemas", "new" if ck.quick() else "both", "--tempo-gen", ck.n(60, 1500)]
+                 "--schemas", "new" if ck.quick() else "both", "--tempo-gen", ck.n(60, 1500), "--prom-gen", ck.n(48, 3000)]
         runs.append(("sweep", sweep))
     hist = {}
     split = {"statements_whose_builder_is_under_a_theorem_for_all_inputs": 0, "statements_judged_per_statement_only": 0,
@@ -825,6 +836,8 @@ PROM_EPS = {  # endpoint -> (hints.Func, hints.Range ms, matcher list per select
     "prom_range_offset_36h": ("", 0, [[_m("a", "MEq", "b"), UP], [_m("a", "MEq", "c"), UP]]),
     "prom_range_rate_offset_1w": ("rate", 300000, [[_m("a", "MEq", "b"), UP], [_m("a", "MEq", "c"), UP]]),
     "prom_range_subquery": ("max_over_time", 0, [[_m("a", "MEq", "b"), UP]]),
+    "prom_range_subsec_range": ("sum_over_time", 89500, [[_m("a", "MEq", "b"), UP]]),
+    "prom_range_subsec_offset": ("", 0, [[_m("a", "MEq", "b"), UP]]),
     "prom_instant_offset_1d": ("", 0, [[_m("a", "MEq", "b"), UP], [_m("a", "MEq", "c"), UP]]),
     "prom_instant": ("", 0, [[_m("a", "MEq", "b"), UP]])}
 
@@ -839,7 +852,30 @@ def run_prom_tie(ck, lines):
             step_of[l["req"]] = int(m.group(1)) * 1000 if m else 0
     sel_cases, fetch_cases, seen, last = [], [], set(), {}
     classes = ("plain-noon", "cross-midnight", "first-half-hour", "month-end", "two-days", "random", "leap-day")
+    ghist, gen_sel = {}, 0
+    hint_bad = []
     for l in lines:
+        if l["kind"] == "stmt" and l["ep"] == "prom_gen" and l.get("pgen") and "JSONExtractKeysAndValues" not in l["sql"]:
+            # a generated request: hints from the generated parameters, Start / End as the harness computed them
+            g = l["pgen"]
+            m = re.search(r"[?&]step=(\d+)", next((q.get("url", "") for q in lines if q["kind"] == "req" and q["req"] == l["req"]), ""))
+            step = int(m.group(1)) * 1000 if m else g["step"] * 1000
+            ms = l["hint_from_ms"] % 15000
+            # every generated statement is judged by the oracle; the byte-exact tie takes the first 28 plus every one whose Start
+            # lies 1..999 ms above a slot boundary (Coq string literals are slow)
+            if gen_sel < 28 or 0 < ms < 1000:
+                sel_cases.append((l, l["hint_from_ms"], l["hint_to_ms"], step, g["func"], g["range_ms"], PROM_EPS["prom_instant"][2][0]))
+            gen_sel += 1
+            raw = "metrics_15s" not in l["sql"]
+            for k in ("start=" + ("slot-boundary" if ms == 0 else "boundary+1..999ms" if ms < 1000 else "other"),
+                      "table=" + ("samples_v3" if raw else "metrics_15s"), "func=" + (g["func"] or "none"),
+                      "step" + ("<15s" if step < 15000 else ">=15s"), "range=" + ("0" if not g["range_ms"] else "<15s" if g["range_ms"] < 15000 else ">=15s"),
+                      "offset=" + ("0" if not g["offset_ms"] else "sub-second-part" if g["offset_ms"] % 1000 else "whole-seconds"),
+                      "cluster" if l["cluster"] else "single"):
+                ghist[k] = ghist.get(k, 0) + 1
+            if ms and ms < 1000 and step >= 15000 and (not g["range_ms"] or g["range_ms"] >= 15000) and g["func"] not in ("quantile_over_time", "stddev_over_time"):
+                ghist["eligible-but-for-the-milliseconds"] = ghist.get("eligible-but-for-the-milliseconds", 0) + 1
+            continue
         if l["kind"] != "stmt" or l["ep"] not in PROM_EPS or l["zone"] not in (0, 10800):
             continue
         fetch = " FROM time_series" in l["sql"] and "JSONExtractKeysAndValues" in l["sql"]
@@ -852,6 +888,9 @@ def run_prom_tie(ck, lines):
             start = int(lo.group(1)) // 1000000
             end = int(hi.group(2)) // 1000000 - (1 if hi.group(1) == "<" else 0)
             last[(l["req"], sel)] = (start, end)
+            # the window the harness computed for this selector (promHint: the engine's getTimeRangesForSelector) is the one in the text
+            if "hint_from_ms" in l and (start, end) != (l["hint_from_ms"], l["hint_to_ms"]):
+                hint_bad.append("%s sel %d %s: statement [%d, %d] hints [%d, %d]" % (l["ep"], sel, l["class"], start, end, l["hint_from_ms"], l["hint_to_ms"]))
         want = classes[(len(l["ep"]) + (3 if l["cluster"] else 0)) % len(classes)]
         key = (l["ep"], l["cluster"], sel, fetch)
         if l["class"] != want or key in seen or (l["req"], sel) not in last:
@@ -890,14 +929,20 @@ def run_prom_tie(ck, lines):
     bad = [int(x) for x in re.findall(r"-?\d+", m.group(1))]
     fbad = [int(x) for x in re.findall(r"-?\d+", f.group(1))]
     eps = {c[0]["ep"] for c in sel_cases}
+    eps.discard("prom_gen")
+    ck.obligation("the hint window computed by the harness for every Prometheus selector ([start - range or lookback - offset, end - offset], "
+                  "start / end snapped to 15 s by the controller) is the window written into its statement", not hint_bad, "; ".join(hint_bad[:4]))
     ck.obligation("correspondence: PromSel.select_sql (hints of the request) = statement Select sent, byte for byte, on %d selects (%d endpoints incl. the "
-                  "second selector of the offset queries, both layouts, raw and down-sampled paths)" % (len(sel_cases), len(eps)),
-                  not bad and len(eps) == len(PROM_EPS),
+                  "second selector of the offset queries, both layouts, raw and down-sampled paths; %d generated requests: function, range and offset "
+                  "in milliseconds, step - the CHOICE of the table included)" % (len(sel_cases), len(eps), gen_sel),
+                  not bad and len(eps) == len(PROM_EPS) and gen_sel >= 30 and ghist.get("eligible-but-for-the-milliseconds", 0) >= 3
+                  and ghist.get("table=metrics_15s", 0) >= 3,
                   "; ".join("%s sel %d %s %s hints %s: %.500s" % (sel_cases[i][0]["ep"], sel_cases[i][0].get("sel", 0), "cluster" if sel_cases[i][0]["cluster"] else "single",
                                                                  sel_cases[i][0]["class"], sel_cases[i][1:6], sel_cases[i][0]["sql"]) for i in bad[:3]))
     ck.obligation("correspondence: render (PromSel.labels_fetch) = recorded label fetch of the same Select, byte for byte, on %d statements" % len(fetch_cases),
                   not fbad, "; ".join("%s %s [%d,%d]: %.300s" % (fetch_cases[i][0]["ep"], fetch_cases[i][0]["class"], fetch_cases[i][2], fetch_cases[i][3], fetch_cases[i][0]["sql"]) for i in fbad[:3]))
     ck.extra["prom_model_ties"] = len(sel_cases) + len(fetch_cases)
+    ck.extra["prom_select_generated_distribution"] = ghist
     ck.coverage["evaluations"] += len(sel_cases) + len(fetch_cases)
 
 
